@@ -210,7 +210,7 @@ prop("C02",
                {"re": "^TestC02Chunked$", "checks": 400, "shards": 5, "timeout": 1700},
                {"re": "^TestC02ChunkedThree$", "checks": 60, "shards": 3, "timeout": 1700},
                {"re": "^TestC02Lua$", "checks": 20000, "timeout": 1700}],
-     rule="entry x configuration x target state. Entry: every type/encoding of the RDB generator (incl. stream, quicklist, zipmap, ziplist, intset, "
+     rule="(regression tier, besides the repaired defects) a ziplist of 65540 entries and an intset of 65536-69001 members on the element-by-element route. entry x configuration x target state. Entry: every type/encoding of the RDB generator (incl. stream, quicklist, zipmap, ziplist, intset, "
           "LZF), collection sizes at 1,2,3,63-65,99-101,199-201,300, expiry none/past/future against the shifted clock, idle/freq hints, keys with "
           "hash tags. Configuration (sanitiser post-conditions): target.version fetched (full string, big_key_threshold in {1,len-1,len,len+1,500MB}) "
           "or configured ('5','5.0','5.0.7'... => threshold 1), TargetReplace by the sanitiser's prefix rule, key_exists in {none,rewrite,ignore}, "
@@ -261,7 +261,7 @@ prop("C20",
      thorough=[{"re": "^TestC20$", "checks": 96, "shards": 12, "timeout": 1700},
                {"re": "^TestC20Syncer$", "checks": 120000, "shards": 4, "timeout": 1700},
                {"re": "^TestC20SyncerWindow$", "checks": 24, "shards": 12, "timeout": 1700},
-               {"re": "^TestC20SyncE2E$", "checks": 3000, "shards": 4, "timeout": 1700}],
+               {"re": "^TestC20SyncE2E$", "checks": 1200, "shards": 4, "timeout": 1700}],
      rule="(complete Sync() start, TestC20SyncE2E) DbSyncer.Sync() on a cluster source of 2-3 fake nodes where the configured node may have been demoted: the SYNC/PSYNC link must be opened to the node that reports master. (syncer over the whole retry window, TestC20SyncerWindow) batches of 4-8 syncers run DbSyncer.updateSlotTopology with the real back-off (~21 s): nodes that never report master (the update must not return as if a master had been found) or a node that reports master only from its 2nd-7th INFO round on (the update must return with exactly that node). one rapid case = a batch of 80-120 shard scripts run concurrently (the retry back-off sleeps 6+5+..+1 s, so a case costs ~21 s of wall "
           "time whatever its size): 1-6 nodes in any order (the configured source need not be the master), and for each node and each of the 7 "
           "attempts one of {master, slave, connect error, command error, INFO without role line, INFO with look-alike lines before the role line}; "
@@ -366,7 +366,7 @@ prop("C03",
             {"re": "^TestC03Volume$", "checks": 3, "timeout": 600}],
      thorough=[{"re": "^TestC03$", "checks": 2800, "shards": 14, "timeout": 1700},
                {"re": "^TestC03Volume$", "checks": 60, "shards": 2, "timeout": 1700}],
-     rule="(volume, TestC03Volume) one stream of 40000-70000 SET commands delivered in 1-4 pieces with metrics on and the delay queue at its unconfigured size (32) or 4096: every command reaches the target in order within 25 s. " + INCR_RULE + "Oracle: reference model written from the statement (source-selected db tracking, db filter, PING forwarded unless the selected db is filtered, OPINFO/lua/sentinel-hello/MULTI/EXEC never "
+     rule="(filter lists) unset filter lists reach the tool as nil or as empty non-nil slices (what an empty configuration value leaves), drawn per case. (volume, TestC03Volume) one stream of 40000-70000 SET commands delivered in 1-4 pieces with metrics on and the delay queue at its unconfigured size (32) or 4096: every command reaches the target in order within 25 s. " + INCR_RULE + "Oracle: reference model written from the statement (source-selected db tracking, db filter, PING forwarded unless the selected db is filtered, OPINFO/lua/sentinel-hello/MULTI/EXEC never "
           "applied, reference key-filter rewrite from C13, destination db = source db or target.db) => expected sequence of (db, command, args); observed = "
           "the model target's command log in execution order with the db each command ran in (tool-own SELECT/MULTI/EXEC/checkpoint HSET and PING left out); "
           "sequences must be equal (order, exactly once, byte-identical args, right db) and complete within 5 s of the last source byte while the stream "
@@ -410,12 +410,14 @@ prop("C16",
      quick=[{"re": "^TestC16$", "checks": 9, "shards": 3, "timeout": 600},
             {"re": "^TestC16BigTargetDB$", "checks": 2, "shards": 2, "timeout": 600},
             {"re": "^TestC16KeyFile$", "checks": 4, "timeout": 600},
+            {"re": "^TestC16LongKeyFile$", "checks": 2, "timeout": 600},
             {"re": "^TestC16QoS$", "checks": 1, "timeout": 600}],
      thorough=[{"re": "^TestC16$", "checks": 1200, "shards": 12, "timeout": 1700},
                {"re": "^TestC16BigTargetDB$", "checks": 120, "shards": 4, "timeout": 1700},
                {"re": "^TestC16KeyFile$", "checks": 300, "shards": 3, "timeout": 1700},
+               {"re": "^TestC16LongKeyFile$", "checks": 60, "shards": 3, "timeout": 1700},
                {"re": "^TestC16QoS$", "checks": 60, "shards": 6, "timeout": 1700}],
-     rule="one rapid case = one configuration and a batch of 8-20 executors run concurrently (QoS bucket and status ticker cost ~2 s per executor): model "
+     rule="(long key files, TestC16LongKeyFile) key files of 180-600 further keys (5-20 KiB, beyond the line scanner's 4 KiB start buffer) read in batches of 5, 50 or 100 (the default) keys. one rapid case = one configuration and a batch of 8-20 executors run concurrently (QoS bucket and status ticker cost ~2 s per executor): model "
           "source keyspaces over 1-4 dbs (0..15), per db 1..2N keys (N = scan.key_number in {1,2,3,5,50}; counts N-1, N, N+1, 2N), values in every "
           "encoding with real DUMP payloads, PTTL none or positive, a SCAN script (any cursor sequence, empty pages, trailing empty page, page sizes "
           "1,2,N,N+3,all), keys vanishing between SCAN and DUMP or between DUMP and PTTL, big_key_threshold in {1,30,60,500MB} (so payloads fall on both "
@@ -438,7 +440,7 @@ prop("C08",
             {"re": "^TestC08EndToEnd$", "checks": 2, "shards": 2, "timeout": 600}],
      thorough=[{"re": "^TestC08$", "checks": 144, "shards": 12, "timeout": 1700},
                {"re": "^TestC08EndToEnd$", "checks": 120, "shards": 10, "timeout": 1700}],
-     rule="(histories) one rapid case = a batch of 8-16 fake-source histories run concurrently against the real sendPSyncCmd/runIncrementalSync/pSyncPipeCopy: "
+     rule="(second drop) in a quarter of the dropped histories the first reconnect is continued, carries no stream byte and is dropped again: every PSYNC must ask for the same exact position. (end to end) every batch holds a fresh start, a continued resume, a resume answered with a full resync under another run id and one under the same run id with another offset. (histories) one rapid case = a batch of 8-16 fake-source histories run concurrently against the real sendPSyncCmd/runIncrementalSync/pSyncPipeCopy: "
           "start offset in {0,57,2^33}, FULLRESYNC (small RDB) or CONTINUE, WaitFull closed 0-2.3 s after the handshake, a timeline of bursts (1-300 bytes) and "
           "idle gaps (0/0.2/0.6/1.1/2.5 s) spanning >= 3 ACK ticks, optionally one drop of the link (after everything sent was flushed) followed by 0-1 s of "
           "refused reconnects; the source answers the reconnect PSYNC as a master does (continues at the requested offset). The fake source records every "
